@@ -1,7 +1,7 @@
 (* Main.v — single entry point of the extracted model: one request tree in, one
    response tree out.  The OCaml driver only parses and prints trees. *)
 From Coq Require Import String List.
-From Prov Require Import Str Sexp Tables Nsm Scope Values Record World Jtree Json JsonSpec Provn ProvnSpec IO Dot Xml Interp.
+From Prov Require Import Str Sexp Tables Nsm Scope Values Record World Jtree Json JsonSpec Provn ProvnSpec IO Dot Xml Rdf Interp.
 Import ListNotations.
 Open Scope string_scope.
 
@@ -25,6 +25,7 @@ Definition run (req : sexp) : sexp :=
           end
       | _, _ => A "bad-request"
       end
+  | L [A "rdfpred"; A k; A attr] => L [A (enc_pred k attr); A (dec_pred k (enc_pred k attr))]
   | L [A "dotquote"; A s] => L [A (dot_quote s); A (html_escape s)]
   | L [A "destpath"; A name] =>
       match dest_path name with Some p => L [A "some"; A p] | None => L [A "none"] end
